@@ -1197,7 +1197,7 @@ def check_C15(ctx):
         body = cases + ".body"
         cfg = dict(spec="PSpec", invariants=["SortedStable", "ComboAfterBreak", "ClosedForms", "ShiftInvariant"],
                    constants=dict(Alpha="<-AlphaShape", Gens="<-GensTwo", MaxLines="0", MinLines="0", Emit="FALSE", MaxObjs=str(maxobjs),
-                                  TimesSet='"%s"' % times, EmitPost="TRUE", Profile='"%s"' % profile))
+                                  TimesSet='"%s"' % times, EmitPost="TRUE", Profile='"%s"' % profile, SortedBreakEnds="TRUE"))
         r = tlc(ctx, "MapPost", name, cfg, workers=14, timeout=3000, cases_file=body)
         with open(cases, "w") as f:
             f.write(json.dumps({"alpha": r["alpha"]}) + "\n")
@@ -1208,6 +1208,10 @@ def check_C15(ctx):
         summ = harness(ctx, ["mappost", "replay"], cases_file=cases, name="mappost-replay-" + profile, timeout=3600)
         report_mismatches(ctx, summ, "map-level processing differs from the MapPost specification")
         os.remove(cases)
+    # negative control: the pinned sweep (breaks walked in FILE order) violates ComboAfterBreak on a list that is not chronological
+    tlc(ctx, "MapPost", "Neg_MapPost_fileorder", dict(spec="PSpec", invariants=["ComboAfterBreak"],
+        constants=dict(Alpha="<-AlphaShape", Gens="<-GensTwo", MaxLines="0", MinLines="0", Emit="FALSE", MaxObjs="1", TimesSet='"small"',
+                       EmitPost="FALSE", Profile='"base"', SortedBreakEnds="FALSE")), workers=4, expect_violation=True, count=False)
     # randomised sample values (banks, volumes, custom indices, hit-sound bytes, file samples) on the same structure
     for salt in ([3, 2, 1, 0] if thorough else [0]):
         rand_post_module(ctx, salt)
@@ -1218,7 +1222,7 @@ def check_C15(ctx):
         cfg = dict(spec="PSpec", invariants=["SortedStable", "ComboAfterBreak"],
                    constants=dict(Alpha="<-AlphaShape", Gens="<-GensTwo", MaxLines="0", MinLines="0", Emit="FALSE", MaxObjs="2",
                                   TimesSet='"small"' if thorough else '"tiny"', EmitPost="TRUE", Profile='"wide"', TimingSeq="<-RandTimingSeq",
-                                  ObjSamples="<-RandObjSamples"))
+                                  ObjSamples="<-RandObjSamples", SortedBreakEnds="TRUE"))
         r = tlc(ctx, "RandPost", name, cfg, workers=14, timeout=3000, cases_file=body)
         with open(cases, "w") as f:
             f.write(json.dumps({"alpha": r["alpha"]}) + "\n")
@@ -1259,7 +1263,7 @@ def flow_cases(ctx, maxitems, emit=True, expect_violation=False, simulate=None):
     # (simulated long behaviours are generated for the replay; the invariants are settled by the exhaustive runs)
     cfg = dict(spec="FSpec", invariants=["NegFinalGeneralIsUsed"] if expect_violation else ([] if simulate else ["FlowOnly", "EarlyGeneralIsEnough"]),
                constants=dict(Alpha="<-AlphaShape", Gens="<-GensTwo", MaxLines="0", MinLines="0", Emit="FALSE", MaxObjs="0",
-                              TimesSet='"small"', EmitPost="FALSE", Profile='"base"', MaxItems=str(maxitems),
+                              TimesSet='"small"', EmitPost="FALSE", Profile='"base"', SortedBreakEnds="TRUE", MaxItems=str(maxitems),
                               MinItems=str(maxitems if simulate else 0),
                               EmitFlow="TRUE" if emit and not expect_violation else "FALSE"))
     r = tlc(ctx, "SectionFlow", name, cfg, workers=1 if simulate else 14, timeout=3000, cases_file=None if expect_violation or not emit else body,
